@@ -258,6 +258,7 @@ func body(s *simrt.Sim, tier string) {
 	src := &simio.Reader{C: s, Data: mutated, FailAt: srcFail}
 	if srcFail >= 0 {
 		src.FailErr = simio.FailureKinds[s.Choose(len(simio.FailureKinds), "srcerrkind")]
+		src.ErrWithData = s.Choose(2, "errwithdata") == 0
 		desc += fmt.Sprintf(" (error %q)", src.FailErr)
 	}
 	enccommon.Chunking(s, src)
